@@ -860,7 +860,10 @@ class NN:
     def _inline_pure(self, t):
         """Option-resolution helpers introduced after the rules were validated (pure functions returning tuples / values) are read through."""
         from .rules import inline_new_helpers, rewrite as _rw, small_rewrites
-        t0 = strip_all(t)
+        from .rules import expand_star_literals
+        t0 = _rw(strip_all(t), expand_star_literals)          # f(*(a, b)) == f(a, b)
+        if t0 != strip_all(t):
+            t = t0
         if not any(x[0] == "call" and head(strip(x[1])) == "glob" and strip(x[1])[1] in self.P.functions for x in walk(t0)):
             return t
         inl = inline_new_helpers(self.r, t0)
